@@ -172,10 +172,16 @@ class TokString(Token):
                     b']' + self._multiline_quote + b']')
         else:
             escaped_chrs = []
-            for c in self._data:
+            for i, c in enumerate(self._data):
                 c = bytes([c])
                 if c in _STRING_REVERSE_ESCAPES:
-                    escaped_chrs.append(b'\\' + _STRING_REVERSE_ESCAPES[c])
+                    escape = _STRING_REVERSE_ESCAPES[c]
+                    if escape.isdigit() and self._data[i+1:i+2].isdigit():
+                        # A decimal escape followed by a digit needs all
+                        # three digits, or the digit would be read as part
+                        # of the escape.
+                        escape = escape.rjust(3, b'0')
+                    escaped_chrs.append(b'\\' + escape)
                 elif c == self._quote:
                     escaped_chrs.append(b'\\' + c)
                 else:
